@@ -7,6 +7,46 @@ HOOK_COMMITS = ["9deeead"]
 
 # property -> (level, technique, level text, level note, design ref)
 CLAIMED = {
+ "C11": ("exploration",
+         "runtime monitor: WHATWG scheme scanner + character-reference decoder observe every URLSanitized result over exhaustive case-folding/insertion families and seeded URL soups",
+         "Each URLSanitized call is judged by an independent WHATWG scheme scanner on the raw and on the character-reference-decoded input, plus the converse (must-keep) clause; the finite families (1024 foldings x ~520 inserted units x 12 positions; all short strings over a URL alphabet) are enumerated, the rest sampled.",
+         "Trusted: refs.Scheme (written from the URL Standard), htmltok.DecodeAttrValue + Go html.UnescapeString for decoding.",
+         "DESIGN.md §5 C11"),
+ "C12": ("exploration",
+         "runtime monitor: independent WHATWG srcset parser re-parses every URLSetSanitized result; enumeration of all short strings over a srcset alphabet plus seeded soups",
+         "Every result is re-parsed by an independent implementation of 'parse a srcset attribute'; candidates, descriptors, in-order copying, the innocuous fallback and idempotence are checked. All strings up to length 6 (thorough 7) over a 9-symbol alphabet are enumerated.",
+         "Trusted: refs.Srcset, refs.Scheme, strconv.ParseFloat as the meaning of 'number'.",
+         "DESIGN.md §5 C12"),
+ "C13": ("exploration",
+         "runtime monitor: results of TrustedResourceURLFormat/Append/WithParams decomposed by an independent marker substitution, RFC 3986 split and dot-segment scan",
+         "Every builder call made is compared with an independent substitution/encoding reference and scanned for '..' segments that involve argument bytes; WithParams is checked for component preservation and determinism over rebuilt maps. Systematic prefix x piece x dot-argument products plus seeded formats.",
+         "Trusted: refs.SafeTRUPrefix / Enc / DotDotWithArg, RFC 3986 appendix-B regular expression.",
+         "DESIGN.md §5 C13"),
+ "C15": ("exploration",
+         "runtime monitor: every StyleFromProperties result is parsed by an independent CSS Syntax Level 3 declaration-list parser and compared with the expected declarations",
+         "Each result is tokenized and parsed by an own CSS Syntax L3 implementation: exact declaration names/order, no ill-formed tokens, value alphabets, URL approval. Every field alone and all pairs of fields over a corpus are enumerated, full assignments are sampled.",
+         "Trusted: csssyn (self-tested), refs.Scheme; documented alphabets from style.go comments.",
+         "DESIGN.md §5 C15"),
+ "C16": ("exploration",
+         "runtime monitor: every accepted CSSRule result is parsed by an independent CSS Syntax Level 3 stylesheet parser (one qualified rule, prelude = selector, block = style)",
+         "Each accepted (selector, style) is checked on the selector's own tokenisation (no block/rule/comment/ill-formed tokens, balanced brackets) and on the parsed stylesheet. Selector atoms are paired exhaustively, longer selectors are seeded mutations of valid selectors and token soups.",
+         "Trusted: csssyn (self-tested).",
+         "DESIGN.md §5 C16"),
+ "C17": ("exploration",
+         "runtime monitor: frame split + JSON re-decoding of every ScriptFromDataAndConstant result against an independent encoding of the same data",
+         "Each call with generated (name, data, script) is checked for the exact frame, forbidden characters in the literal, single JSON text, round trip against encoding/json in an independent mode, and for failing (zero Script) on non-identifier names and unencodable data.",
+         "Trusted: encoding/json Encoder(SetEscapeHTML(false)) / Decoder(UseNumber) as the reference JSON semantics; constant-only parameters are driven via reflect conversion.",
+         "DESIGN.md §5 C17"),
+ "C18": ("exploration",
+         "runtime monitor: byte-level recogniser of [A-Za-z][-_A-Za-z0-9]* judges every result of the Identifier constructors; exhaustive over short byte strings",
+         "All byte strings up to length 2 (thorough 3) are fed to both constructors (constant-only parameters via reflect conversion), plus insertions of every byte / Unicode letters, digits, marks into valid identifiers; each non-panicking result must match the grammar and keep the prefix.",
+         "Trusted: the harness' own recogniser.",
+         "DESIGN.md §5 C18"),
+ "C20": ("exploration",
+         "runtime monitor: path decomposition (Clean/Join/Dir/Base) of every TrustedSourceFromConstantDir result; exhaustive over short filenames on a hostile alphabet",
+         "All filenames up to length 3 (thorough 4) over a 20-symbol alphabet x 8 constant dirs x 5 src values are executed; every accepted result must be the base directory or a direct child whose last element is the filename.",
+         "Trusted: path/filepath of the host OS for decomposition.",
+         "DESIGN.md §5 C20"),
  "C10": ("exploration",
          "runtime monitor: differential oracle (reference UTF-8 coercion + stdlib unescape + own WHATWG tokenizer) over exhaustive code points / short byte strings and seeded hostile strings",
          "Every executed HTMLEscaped/HTMLConcat call is observed by an oracle that is independent of the library; the finite sub-spaces (all code points, all 1-2 byte strings; thorough: all 3-byte strings with a non-ASCII lead byte) are enumerated completely, longer inputs are sampled. Held on what was executed; nothing is claimed about longer inputs not generated.",
